@@ -80,7 +80,10 @@ Proof. intros W R. destruct o; try discriminate R; cbn [step].
   - destruct (negb _); [apply le_refl|]. destruct (d_auto (get_dv k s)); [|apply le_refl]. cbn [fst ok]. apply le_upd_ce. intros c; simpl; lia.
   - cbn [fst ok]. apply le_fold. intros; apply le_auto_one.
   - destruct (negb _); apply le_refl.
-  - apply le_refl. Qed.
+  - apply le_refl.
+  - destruct (negb _); [apply le_refl|]. cbn [fst ok].
+    eapply le_trans. { apply le_rest. symmetry. apply (invalidateAll_rest s (ws_stage w) W (ws_stage_ge w)). }
+    destruct w; try apply le_refl; auto using le_noteQ, le_noteU, le_noteZ. Qed.
 
 (* discrete variables are untouched by notifications *)
 Fact get_dv_inval_ce n k s dk : get_dv dk (inval_ce n k s) = get_dv dk s.
@@ -122,7 +125,9 @@ Proof. intros W R NA NS. destruct o; try discriminate R; cbn [step].
   - destruct (negb _); auto. destruct (d_auto (get_dv k s)); auto. cbn [fst ok]. apply get_dv_upd_ce.
   - contradiction.
   - destruct (negb _); auto.
-  - auto. Qed.
+  - auto.
+  - destruct (negb _); auto. cbn [fst ok]. pose proof (rest_get_dv _ _ dk (invalidateAll_rest s (ws_stage w) W (ws_stage_ge w))) as X.
+    destruct w; auto; unfold noteQ, noteU, noteZ; rewrite ?get_dv_notify; auto. Qed.
 
 (** setDiscreteVariable: the value is the one written, the value version is bumped by exactly one *)
 Fact step_setdv cf s k v : WF s -> runtime s (SetDV k v) = true -> has_sub s (fst k) && has_dv s k = true ->
@@ -205,3 +210,19 @@ Proof. intros W. cbn [step fst ok].
     match goal with |- (qv (notify ?l ?x), _, _) = _ => pose proof (qvs_notify l x) as X1; unfold qvs in X1 end.
     apply E2 in X1. destruct X1 as (X11 & X12 & X13). rewrite X11, X12, X13. cbn [qv uv zv set_qv]. congruence.
   - auto. Qed.
+
+(** the per-subsystem accessors updQ(subsys) / updU(subsys) / updZ(subsys) bump exactly the value version of what they hand out,
+    the per-subsystem weight accessors none *)
+Fact step_updsub_versions cf s ss : WF s -> has_sub s ss = true ->
+  qvs (fst (step cf s (UpdSub WQ ss))) = (S (qv s), uv s, zv s) /\ qvs (fst (step cf s (UpdSub WU ss))) = (qv s, S (uv s), zv s) /\
+  qvs (fst (step cf s (UpdSub WZ ss))) = (qv s, uv s, S (zv s)) /\
+  (forall w, w = WUW \/ w = WZW \/ w = WQEW \/ w = WUEW -> qvs (fst (step cf s (UpdSub w ss))) = qvs s).
+Proof. intros W HS. cbn [step]. rewrite HS. cbn [andb sub_ok negb fst ok].
+  assert (R: forall w, qvs (invalidateAll (ws_stage w) s) = qvs s) by (intros w; apply qvs_rest, invalidateAll_rest; auto; apply ws_stage_ge).
+  pose proof (R WQ) as RQ. pose proof (R WU) as RU. pose proof (R WZ) as RZ.
+  unfold qvs in *. unfold noteQ, noteU, noteZ.
+  split; [|split; [|split]].
+  - pose proof (qvs_notify (qd (invalidateAll (ws_stage WQ) s)) (set_qv (invalidateAll (ws_stage WQ) s) (S (qv (invalidateAll (ws_stage WQ) s))))) as X. unfold qvs in X. rewrite X. cbn [qv uv zv set_qv set_uv set_zv]. congruence.
+  - pose proof (qvs_notify (ud (invalidateAll (ws_stage WU) s)) (set_uv (invalidateAll (ws_stage WU) s) (S (uv (invalidateAll (ws_stage WU) s))))) as X. unfold qvs in X. rewrite X. cbn [qv uv zv set_qv set_uv set_zv]. congruence.
+  - pose proof (qvs_notify (zd (invalidateAll (ws_stage WZ) s)) (set_zv (invalidateAll (ws_stage WZ) s) (S (zv (invalidateAll (ws_stage WZ) s))))) as X. unfold qvs in X. rewrite X. cbn [qv uv zv set_qv set_uv set_zv]. congruence.
+  - intros w [ -> | [ -> | [ -> | -> ] ] ]; cbn [sub_ok negb andb fst ok]; apply (R _). Qed.
